@@ -477,9 +477,7 @@ def run(ck: Check):
                    "torch's elementary functions exp/log/log1p/expm1/sigmoid/pow (Lean Float vs torch at 1e-10)"]
     ok, broken = ck.lean_side({}, ["TTModel.C07_Transforms", "TTModel.C07_Torch", "TTProofs.Props.C07",
                                    "TTProofs.Props.C07_Torch", "drv_c07"], "TTProofs/Props/C07.lean")
-    if ok and not ck.audit("TTProofs/Props/C07_Torch.lean"):
-        ok = False
-        broken = [o["name"] + ": " + o.get("detail", "") for o in ck.obligations if not o["ok"]]
+    # (common.lean_side also builds and audits the companion file TTProofs/Props/C07_Torch.lean)
     drv = None
     try:
         drv = ck.driver("drv_c07")
